@@ -38,3 +38,30 @@ Definition inside (root p : bytes) : Prop :=
    (None = error, nothing opened). *)
 Definition confined (res : bytes -> bytes -> option bytes) : Prop :=
   forall root path p, res root path = Some p -> inside root p.
+
+(* A second reading of "lexically inside" that does not mention Clean at all: the position a
+   path string denotes when its elements are walked one by one from its starting directory
+   (the working directory, or "/" for a rooted path) — how many levels above the start, then
+   which names below that (deepest first).  "" and "." stay, ".." leaves the directory entered
+   last, or goes one level above the start (at "/" it stays), a name enters. *)
+Definition position := (nat * list bytes)%type.
+
+Definition step (rt : bool) (pos : position) (e : bytes) : position :=
+  let (u, d) := pos in
+  if bytes_eqb e [] then pos
+  else if bytes_eqb e DOT then pos
+  else if bytes_eqb e DOTDOT then
+    match d with
+    | _ :: d' => (u, d')
+    | [] => if rt then pos else (S u, [])
+    end
+  else (u, e :: d).
+
+Definition position_of (s : bytes) : position :=
+  fold_left (step (rooted s)) (split s) (0%nat, []).
+
+(* [p] denotes the directory [root] denotes, or something reached from it through ordinary names *)
+Definition below (root p : bytes) : Prop :=
+  rooted p = rooted root /\
+  exists names, Forall plain_name names /\
+    position_of p = (fst (position_of root), rev names ++ snd (position_of root)).
